@@ -35,9 +35,14 @@ pub const DEFAULT_SEED: u64 = 20260922;
 
 /// (quick runs, thorough max runs) per property; quick is sized for roughly a minute on 16 cores
 fn run_counts(property: &str) -> (u64, u64) {
+    // quick: about 20-30 s on 16 cores; thorough: bounded by the wall-clock budget (600 s) rather than by the count
     match property {
-        "C01" => (2400, 400_000),
-        _ => (1500, 200_000),
+        "C01" => (8000, 400_000),
+        "C05" => (1500, 60_000),
+        "C06" => (2400, 100_000),
+        "C08" | "C12" => (3000, 100_000),
+        "C13" | "C14" | "C15" | "C19" => (6000, 200_000),
+        _ => (10_000, 400_000),
     }
 }
 
